@@ -18,6 +18,7 @@ type task struct {
 	fn      func()
 	done    bool
 	waiting bool // spinning on a lock held by somebody else
+	spawned bool // a goroutine the library started (hooks WillSpawn/GoStart/GoEnd)
 	panicV  string
 	panicAt string
 }
@@ -71,6 +72,9 @@ func (s *sched) body(t *task) {
 		}()
 		t.fn()
 	}()
+	if traceSites {
+		println("   ", t.name, "ends")
+	}
 	t.done = true
 	s.stall = 0
 	s.main.unpark()
@@ -129,7 +133,7 @@ func (s *sched) yield(site string) {
 		return
 	}
 	t := s.cur
-	if t.gid != 0 && curGID() != t.gid {
+	if curGID() != t.gid {
 		return // a goroutine the library started by itself (handlers): not a task
 	}
 	if s.thin > 1 && len(site) > 2 && site[0] == 'i' && site[1] == ':' {
@@ -199,7 +203,7 @@ func (s *sched) beforeTry(try func() bool) {
 		return
 	}
 	t := s.cur
-	if t.gid != 0 && curGID() != t.gid {
+	if curGID() != t.gid {
 		return
 	}
 	for {
@@ -215,6 +219,63 @@ func (s *sched) beforeTry(try func() bool) {
 			panic(abandon{})
 		}
 	}
+}
+
+// willSpawn is called by the running task right before a `go` statement of the library: the new
+// goroutine becomes a task (it does not run before the scheduler picks it).
+//
+//go:norace
+func (s *sched) willSpawn() uint64 {
+	if !s.active || s.cur == nil {
+		return 0
+	}
+	if curGID() != s.cur.gid {
+		return 0
+	}
+	t := &task{id: len(s.tasks), name: fmt.Sprintf("g%d", len(s.tasks)), spawned: true}
+	s.tasks = append(s.tasks, t)
+	s.mixStr("spawn")
+	if traceSites {
+		println("   ", s.cur.name, "spawns", t.name)
+	}
+	return uint64(t.id) + 1
+}
+
+// goStart is the first thing a goroutine started by the library does: wait for its turn.
+//
+//go:norace
+func (s *sched) goStart(id uint64) {
+	if id == 0 || int(id-1) >= len(s.tasks) {
+		return
+	}
+	t := s.tasks[id-1]
+	t.gid = curGID()
+	t.w.park()
+	if s.dead || s.over {
+		panic(abandon{})
+	}
+}
+
+// goDone is the last thing it does (deferred with the recovered panic value, if any).
+//
+//go:norace
+func (s *sched) goDone(x interface{}) {
+	t := s.cur
+	if t == nil || !t.spawned || curGID() != t.gid {
+		if x != nil {
+			panic(x)
+		}
+		return
+	}
+	if x != nil {
+		if _, ok := x.(abandon); !ok {
+			t.panicV = fmt.Sprint(x)
+			t.panicAt = "goroutine started by the library"
+		}
+	}
+	t.done = true
+	s.stall = 0
+	s.main.unpark()
 }
 
 // curGID reads the id of the calling goroutine from its stack header ("goroutine 123 [").
